@@ -28,14 +28,15 @@ ALL = "*"
 SUBJECT = {
     "C01": [(SE, ["StateEngine.notify", "StateEngine.change_state", "merge_result", "find_state", "parse_rfc3339_datetime", "StateEngine.end_execution"]), (SP, [ALL]), (EXC, [ALL])],
     "C02": [(SE, ["StateEngine.start_execution", "StateEngine.end_execution", N + "handle_terminal_state", N + "handle_error", "StateEngine.check_for_expired_branch_results",
-                  "BranchMetadata.__init__", "StateEngine.notify$", "StateEngine.check_pending_results", "StateEngine.branch_has_terminated", N + "asl_state_collect_results"]),
-            (TD, ["TaskDispatcher.handle_sfn_response", "TaskDispatcher.cancel_task"]), ("metrics_summary", [ALL])],
+                  "BranchMetadata.__init__", "StateEngine.notify$", "StateEngine.check_pending_results", "StateEngine.branch_has_terminated", N + "asl_state_collect_results",
+                  N + "asl_state_Task", N + "asl_state_Task_delegate", N + "asl_state_Wait"]),
+            (TD, ["TaskDispatcher.handle_sfn_response", "TaskDispatcher.cancel_task", "TaskDispatcher.execute_task", "TaskDispatcher.handle_rpcmessage_response"]), ("metrics_summary", [ALL])],
     "C03": [(ED, ["EventDispatcher.dispatch", "EventDispatcher.acknowledge", "EventDispatcher.publish", "EventDispatcher.heartbeat", "EventDispatcher.set_timeout", "EventDispatcher.clear_timeout"]),
             (SE, ["StateEngine.acknowledge_event_list", "StateEngine.check_pending_results", "StateEngine.branch_has_terminated", N + "asl_state_collect_results", N + "handle_terminal_state",
                   "StateEngine.notify$", "StateEngine.end_execution", "StateEngine.check_for_expired_branch_results", N + "asl_state_Wait", N + "asl_state_Task_delegate"]),
             (TD, ["TaskDispatcher.handle_rpcmessage_response", "TaskDispatcher.handle_orphaned_responses", "TaskDispatcher.schedule_orphaned_response_handler", "TaskDispatcher.cancel_task",
                   "TaskDispatcher.remove_canceller", "TaskDispatcher.set_rpcmessage_canceller", "TaskDispatcher.set_sfn_canceller", "TaskDispatcher.set_wait_canceller",
-                  "TaskDispatcher.execute_task$", "TaskDispatcher.execute_task.timeout_callback", "TaskDispatcher.execute_task.send_error_callback",
+                  "TaskDispatcher.execute_task",
                   "TaskDispatcher.handle_sfn_response", "TaskDispatcher.handle_unroutable_rpcmessage"]),
             (AM, ["Connection.set_timeout", "Connection.clear_timeout", "Message.acknowledge", "Session.acknowledge"]), (AMA, ["Connection.set_timeout", "Connection.clear_timeout", "Message.acknowledge", "Session.acknowledge"])],
     "C04": [(TD, ["TaskDispatcher.execute_task$", "TaskDispatcher.execute_task.asl_service_rpcmessage", "TaskDispatcher.execute_task.asl_service_states_startExecution", "TaskDispatcher.handle_rpcmessage_response", "TaskDispatcher.handle_orphaned_responses", "TaskDispatcher.schedule_orphaned_response_handler",
